@@ -93,7 +93,11 @@ def verify_function(con, reg, repo="/repo", z3_ms=None, extra=None):
     # provable from the hypotheses at function entry, at every loop body entry and at a return point
     can = []
     gax = list(eng.global_axioms.values())
+    seen_labels = {}
     for label, hyps in eng.reach:
+        seen_labels[label] = seen_labels.get(label, 0) + 1
+        if seen_labels[label] > 2:
+            continue
         can.append(Oblig("%s::canary::reach:%s" % (con.qual, label), "canary", gax + list(hyps), z3.BoolVal(False)))
     for i, (st, rv) in enumerate(eng.return_states[:8]):
         can.append(Oblig("%s::canary::must-fail:post-False#%d" % (con.qual, i), "canary", gax + list(st.pc), z3.BoolVal(False)))
